@@ -99,7 +99,6 @@ inductive ClassG where
   | recoverable
   | decryptConsumed | msgSavedNoRecord | dedupBlocks | snapshotLeft | tornMerge | appliedNoRecord | pendingLost
   | tornAccept | autocommitOrphaned
-  | recordOnly                         -- the retry is refused but only the dedup record of the event differs
   | orphanPending | partialLocal       -- soft left-overs of an interrupted local call
   | other
   deriving DecidableEq, Repr
@@ -115,7 +114,6 @@ def ClassG.name : ClassG → String
   | .pendingLost => "pending-commit-lost"
   | .tornAccept => "torn-accept"
   | .autocommitOrphaned => "autocommit-orphaned"
-  | .recordOnly => "only-dedup-record-differs"
   | .orphanPending => "orphan-pending-commit"
   | .partialLocal => "partial-local-write"
   | .other => "other"
@@ -123,7 +121,7 @@ def ClassG.name : ClassG → String
 /-- the classes whose crash points end in the uninterrupted run's observable state (remote) / leave a usable
     store (local) -/
 def ClassG.harmless : ClassG → Bool
-  | .recoverable | .appliedNoRecord | .autocommitOrphaned | .recordOnly | .orphanPending | .partialLocal => true
+  | .recoverable | .appliedNoRecord | .autocommitOrphaned | .orphanPending | .partialLocal => true
   | _ => false
 
 /-- the decision procedure of `vlib/crashweng.py: classify`, on the model's stores -/
@@ -153,7 +151,6 @@ def classifyG (mode : Mode) (ws : List W) (k : Nat) (d : Db) : ClassG :=
     else if mode == .welcome && !retryOk then .dedupBlocks
     else if !retryOk && samePost && mid.pm == 0 && post.pm != 0 && (mid.recE != d.recE || mid.mlsE != d.mlsE) then .appliedNoRecord
     else if mid.pending && !d.pending && !retryOk then .autocommitOrphaned
-    else if obsG r.1 == obsG post then .recordOnly
     else if mid.pm != 0 && d.pm == 0 && !retryOk then .dedupBlocks
     else if mid.msgs > d.msgs && !retryOk then .msgSavedNoRecord
     else if mid.snaps > d.snaps && !retryOk then .snapshotLeft
@@ -186,15 +183,33 @@ def allPrefixes : List (Nat × Nat × Nat × ClassG) :=
       let ws := expand cp.1 (cp.2.getD pi [])
       (List.range ws.length).map (fun k => (cp.1, pi, k, classifyG (modeOf cp.1) ws k (freshStore cp.1 false)))))
 
-/-- the crash points that are NOT recoverable, with their mechanism -/
-def openPrefixes : List (Nat × Nat × Nat × ClassG) := allPrefixes.filter (fun x => !x.2.2.2.harmless)
+/-- the crash points that are NOT recovered, with the mechanism the decision procedure names -/
+def openPrefixes : List (Nat × Nat × Nat × ClassG) :=
+  (Generated.writeSeq.filter (fun cp => modelled cp.1)).flatMap (fun (cp : Nat × List (List Nat)) =>
+    (List.range cp.2.length).flatMap (fun pi =>
+      let ws := expand cp.1 (cp.2.getD pi [])
+      (List.range ws.length).filterMap (fun k =>
+        if recoveredG (modeOf cp.1) ws k (freshStore cp.1 false) then none
+        else some (cp.1, pi, k, classifyG (modeOf cp.1) ws k (freshStore cp.1 false)))))
 
-/-- the classification is the same on both fresh stores of every case, and it is sound: a class is harmless
-    exactly when the crash point is recovered -/
+/-- the retry is refused, yet everything the application can observe is as after the uninterrupted run: only the
+    dedup record of the event differs (`excused: only-dedup-record-differs` in vlib/crashweng.py) -/
+def recordOnly (mode : Mode) (ws : List W) (k : Nat) (d : Db) : Bool :=
+  match mode with
+  | .message | .welcome | .accept =>
+    let r := retryG mode ws (crashAtG ws k d)
+    !r.2 && obsG r.1 == obsG (run d ws)
+  | _ => false
+
+/-- the classification is sound and the same on both fresh stores of a case: a class called harmless is recovered; a
+    recovered crash point is called harmless, or differs in the dedup record only; a crash point that is not
+    recovered carries a mechanism -/
 def soundAt (case : Nat) (p : List Nat) (k : Nat) (d : Db) : Bool :=
   let ws := expand case p
-  (classifyG (modeOf case) ws k d).harmless == recoveredG (modeOf case) ws k d &&
-  classifyG (modeOf case) ws k d == classifyG (modeOf case) ws k (freshStore case false)
+  let c := classifyG (modeOf case) ws k d
+  let r := recoveredG (modeOf case) ws k d
+  (!c.harmless || r) && (!r || c.harmless || recordOnly (modeOf case) ws k d) && (r || (c != .other && c != .recoverable)) &&
+  c == classifyG (modeOf case) ws k (freshStore case false) && r == recoveredG (modeOf case) ws k (freshStore case false)
 
 def soundAll : Bool :=
   (Generated.writeSeq.filter (fun cp => modelled cp.1)).all (fun cp =>
